@@ -30,6 +30,9 @@ pub struct Case {
     /// brotli window 10..24
     pub window: u8,
     pub schedule: Schedule,
+    /// round 4: Content-Type of the response: 0 text/html, 1 absent, 2 text/plain, 3 application/json (only text filters apply to the last two)
+    #[serde(default)]
+    pub ct_kind: u8,
     /// set in the witness of the known finding: the D7 exclusions are not applied
     #[serde(default)]
     pub no_exclusions: bool,
@@ -172,7 +175,10 @@ pub fn check(case: &Case) -> Outcome {
     let mut out = Outcome::new();
     let body = body_of(case);
     let supported = ["gzip", "deflate", "br"].contains(&case.header_value.to_lowercase().as_str());
-    let ct = Header { name: "Content-Type".into(), value: "text/html; charset=utf-8".into() };
+    let ct = Header { name: if case.ct_kind == 1 { "X-No-Content-Type".into() } else { "Content-Type".into() }, value: ["text/html; charset=utf-8", "-", "text/plain", "application/json"][case.ct_kind as usize % 4].into() };
+    if case.ct_kind != 0 {
+        out.class(["", "content-type-absent", "content-type-text/plain", "content-type-application/json"][case.ct_kind as usize % 4]);
+    }
     let ce = Header { name: case.header_name.clone(), value: case.header_value.clone() };
     let plain_run = run_schedule(&case.filters, &[ct.clone()], body.as_bytes(), &Schedule::Whole);
     let plain = plain_run.out.clone();
@@ -293,6 +299,10 @@ pub fn strategy() -> BoxedStrategy<Case> {
         (1, ("none", "compress")),
         (1, ("none", "gzip, br")),
         (1, ("none", " gzip")),
+        (1, ("none", "x-gzip")),
+        (1, ("none", "X-GZIP")),
+        (1, ("none", "x-deflate")),
+        (1, ("none", "bzip2")),
     ]);
     // the last two classes hand the re-encoder more than 64 KiB of poorly compressible text in one call
     let size = pickw(vec![(24u32, (1u16, 0u32)), (4, (1, 3000)), (2, (40, 0)), (2, (200, 20000)), (2, (0, 0)), (1, (1, 70_000)), (1, (2, 100_000))]);
@@ -336,6 +346,12 @@ pub fn strategy() -> BoxedStrategy<Case> {
                 level,
                 window,
                 schedule,
+                ct_kind: match (noise_seed >> 32) % 10 {
+                    0 => 1,
+                    1 => 2,
+                    2 => 3,
+                    _ => 0,
+                },
                 no_exclusions: false,
             }
         })
@@ -346,7 +362,7 @@ pub fn run(ctx: &Ctx) -> Report {
     let mut rep = Report::new(
         "C14",
         "case = generated document (0 B .. ~170 KiB: single, repeated 40x/200x, with up to 100000 incompressible characters, so that single calls of the re-encoder exceed its staging buffer) x filters that find their target (HTML filters, in 35% of the cases with append_text / prepend_text / replace_text filters placed among them) x encoding in {gzip, deflate(zlib), br} x producer settings (flate2 level 0..9, zlib streams declaring windows of 2^8..2^15 bytes, a third of the gzip bodies as two members, brotli quality 0..11, window 10..24) x header spellings \
-         x schedule over the COMPRESSED stream (whole, byte-wise, strides 1/2/3/7/10/4096, cuts inside the first 12 bytes, generated k-partitions) ; also unsupported encodings (identity, zstd, compress, 'gzip, br', ' gzip'); \
+         x schedule over the COMPRESSED stream (whole, byte-wise, strides 1/2/3/7/10/4096, cuts inside the first 12 bytes, generated k-partitions) ; also unsupported encodings (identity, zstd, compress, 'gzip, br', ' gzip', x-gzip, X-GZIP, x-deflate, bzip2); Content-Type text/html, absent, text/plain or application/json; \
          oracle = an independent decoder instance accepts the output as ONE complete stream with nothing left over and dec(out) == the same filters applied to the plain body in one chunk; unsupported encoding => no chain is created and out == in; \
          non-trivial = the filters changed the document and a cut falls inside the first 10 or the last 8 bytes of the compressed stream; distinct by case hash",
     );
